@@ -73,7 +73,9 @@ impl Peer {
         self.release_piece(pieces_status);
     }
 
-    fn release_piece(&self, pieces_status: &mut Vec<Status>) {
+    /// Give back reservation of the piece assigned to this peer (if any): one peer less is
+    /// fetching it, and when it was the last one, piece is `Missing` (assignable) again.
+    pub fn release_piece(&self, pieces_status: &mut Vec<Status>) {
         match self.piece_index {
             Some(piece_index) => {
                 pieces_status[piece_index] = match pieces_status[piece_index] {
